@@ -18,7 +18,7 @@ mp.mp.dps = 40
 
 
 # ------------------------------------------------------------------ constant-rate density (Stadler 2010 form)
-def const_logdensity(lam, mu, psi, rho, origin, tip_heights, internal_heights, survival):
+def const_logdensity(lam, mu, psi, rho, origin, tip_heights, internal_heights, survival, r=None):
     """ages: tip_heights / internal_heights are times before the present; origin = age of the origin.
     Tips of age 0 are rho-sampled when rho > 0, every other tip is psi-sampled (and removed)."""
     lam, mu, psi, rho, T = (mp.mpf(v) for v in (lam, mu, psi, rho, origin))
@@ -39,6 +39,11 @@ def const_logdensity(lam, mu, psi, rho, origin, tip_heights, internal_heights, s
         val /= q(x)
     for y in serial:
         val *= q(y)
+        if r is not None:
+            # sampled and removed with probability r, otherwise it stays and leaves no further sampled descendant
+            val *= mp.mpf(r) + (1 - mp.mpf(r)) * p0(y)
+    if r is not None:
+        val *= mp.mpf(2) ** len(internal_heights)  # labelled tree, as the code returns it with a removal probability
     if survival:
         val /= 1 - p0(T)
     return mp.log(val)
